@@ -525,6 +525,45 @@ fn sanity(n: u64, seed: u64) {
     );
 }
 
+// ---- F9 (C07): an upstream-failure notification that reaches an Ephemeral job skipped earlier is swallowed:
+// TF(eph) -> O1 -> E2(eph) -> O3, TF -> S <- P(always, changed).  O1, E2, O3 are skipped early; TF runs and fails.
+fn f9() {
+    let mut w = World::new();
+    w.node("TF", JobKind::Ephemeral).node("O1", JobKind::Output).node("E2", JobKind::Ephemeral).node("O3", JobKind::Output)
+        .node("S", JobKind::Output).node("P", JobKind::Always);
+    w.edge("TF", "O1").edge("O1", "E2").edge("E2", "O3").edge("TF", "S").edge("P", "S");
+    let o1 = w.run(&|j| format!("{}-v1", j), &[]);
+    let (mut g, present) = w.build();
+    let mut log: Vec<String> = vec![];
+    if let Err(e) = g.event_startup() { log.push(format!("startup error {:?}", e)); }
+    let mut guard = 0;
+    while !g.is_finished() && guard < 100 {
+        guard += 1;
+        for c in g.query_ready_for_cleanup() { let _ = g.event_job_cleanup_done(&c); }
+        let mut ready: Vec<String> = g.query_ready_to_run().into_iter().collect();
+        ready.sort();
+        if ready.is_empty() { log.push("stall".into()); break; }
+        let j = ready[0].clone();
+        if g.event_now_running(&j).is_err() { break; }
+        log.push(j.clone());
+        let r = if j == "TF" { g.event_job_finished_failure(&j) } else {
+            let out = if j == "P" { "P-v2".to_string() } else { format!("{}-v1", j) };
+            if w.nodes.iter().find(|n| n.0 == j).unwrap().1 == JobKind::Output { present.borrow_mut().insert(j.clone()); }
+            g.event_job_finished_success(&j, out)
+        };
+        if let Err(e) = r { log.push(format!("error {:?}", e)); break; }
+    }
+    let mut uf: Vec<String> = g.query_upstream_failed().into_iter().collect();
+    uf.sort();
+    let mut failed: Vec<String> = g.query_failed().into_iter().collect();
+    failed.sort();
+    // C07: O1, E2, O3 and S were not started and depend on the failed TF (E2 and O3 through O1): all must be upstream-failed
+    let want = vec!["E2".to_string(), "O1".to_string(), "O3".to_string(), "S".to_string()];
+    let bad = failed == vec!["TF".to_string()] && uf != want;
+    report("F9", bad, format!("first run errors {:?}; second evaluation started {:?}; failed {:?}; upstream-failed {:?} (expected {:?}); finished {}",
+        o1.errors, log, failed, uf, want, g.is_finished()));
+}
+
 // ---- perf (not a check): layered Ephemerals `width` x `depth` above one Output D that also depends on an Always job X,
 // with an up-to-date sibling consumer W of the first layer; second evaluation with X changed.  Prints wall time.
 fn perf(width: usize, depth: usize) {
@@ -589,4 +628,5 @@ fn main() {
     run("F5", &f5);
     run("F8", &f8);
     run("F7", &f7);
+    run("F9", &f9);
 }
